@@ -239,12 +239,16 @@ def _has_octal(text):
 
 
 def expand_isar_calls(txt):
-    """shiftLeft(a, b) -> ((a) << (b)), as other_schemas.rst documents for isar"""
+    """shiftLeft(a, b) -> ((a) << (b)), bitMaskOr(a, b) -> ((a) | (b)), as other_schemas.rst documents for isar"""
     while True:
+        fn, sym = "shiftLeft", "<<"
         p = txt.find("shiftLeft(")
         if p < 0:
+            fn, sym = "bitMaskOr", "|"
+            p = txt.find("bitMaskOr(")
+        if p < 0:
             return txt
-        depth, comma, q = 0, None, p + len("shiftLeft")
+        depth, comma, q = 0, None, p + len(fn)
         for k in range(q, len(txt)):
             ch = txt[k]
             if ch == "(":
@@ -257,11 +261,13 @@ def expand_isar_calls(txt):
             elif ch == "," and depth == 1:
                 comma = k
         a, b = txt[q + 1:comma].strip(), txt[comma + 1:end].strip()
-        txt = txt[:p] + "((%s) << (%s))" % (a, b) + txt[end + 1:]
+        txt = txt[:p] + "((%s) %s (%s))" % (a, sym, b) + txt[end + 1:]
 
 
 def _spellings(c):
     """(tag, text): minimal, fully parenthesised, and - when it differs - the minimal text without blanks"""
+    if not c["min"]:
+        return []           # no prophy-language text (bitMaskOr): isar only
     out = [("M", c["min"]), ("F", c["full"])]
     if c.get("tight") and c["tight"] != c["min"]:
         out.append(("T", c["tight"]))
@@ -333,6 +339,8 @@ def expr_worker(cases, wid, extra):
                     if not 0 <= b < 32:
                         raise ValueError
                     v = a >> b
+                elif isinstance(n.op, ast.BitOr):
+                    v = a | b
                 else:
                     raise ValueError
             else:
@@ -494,6 +502,10 @@ def expr_worker(cases, wid, extra):
             if 0 <= c["value"] < 2 ** 31:
                 elems.append('<enum name="E%s%d"><enum-member name="E%s%d_a" value="%s"/></enum>'
                              % (tag, i, tag, i, CL.xml_escape(txt)))
+            if tag == "I" and 1 <= c["value"] <= 64 and not for_cpp:
+                # the operator-call constant and enumerator, used by NAME as array extents: evaluated at model time
+                elems.append('<struct name="SN%s%d"><member name="a" type="u8"><dimension size="%s%d"/></member>'
+                             '<member name="b" type="u16"><dimension size="E%s%d_a"/></member></struct>' % (tag, i, tag, i, tag, i))
         return "<x>\n%s\n</x>\n" % "\n".join(elems)
 
     def check_isar(chunk, base_i):
@@ -552,6 +564,14 @@ def expr_worker(cases, wid, extra):
                      "denotes %d" % (got, v))
             if 1 <= v <= 64 and not c.get("_nostruct") and by["S%s%d" % (tag, i)].byte_size != v:
                 fail(c, "isar array size (%s)" % txt, "model size is %r, expected %d" % (by["S%s%d" % (tag, i)].byte_size, v))
+            if tag == "I" and 1 <= v <= 64:
+                sn = by["SN%s%d" % (tag, i)]
+                want_size = v + v % 2 + 2 * v
+                py_size = getattr(mod, "SN%s%d" % (tag, i))._SIZE
+                if sn.byte_size != want_size or py_size != want_size:
+                    fail(c, "isar array sizes named by constant and enumerator (%s)" % txt,
+                         "'u8 a[%s%d]; u16 b[E%s%d_a]' has model size %r and Python _SIZE %r, expected %d"
+                         % (tag, i, tag, i, sn.byte_size, py_size, want_size))
         shutil.rmtree(sub, ignore_errors=True)
         return "ok", None
 
